@@ -11,3 +11,14 @@ func verifDraw(site string, n int, v int) {
 		VerifDraw(site, n, v)
 	}
 }
+
+// VerifGate, when set by a verification harness, is called by the worker goroutines of Compare and
+// CompareWeighted at their synchronisation points (site, worker number, tree id); it may block, which lets
+// the harness force a particular interleaving, or record the event.
+var VerifGate func(site string, worker int, item int)
+
+func verifGate(site string, worker int, item int) {
+	if VerifGate != nil {
+		VerifGate(site, worker, item)
+	}
+}
